@@ -358,7 +358,7 @@ def run_rest(scn):
                 o1["violation"] = v.to_json()
     finally:
         rest.requests, rest.time = saved
-    out.update({k: o1[k] for k in ("ticks", "sig", "nontrivial")})
+    out.update({k: o1[k] for k in ("ticks", "sig", "nontrivial", "sim_s")})
     out["probes"] = dict(o1["probes"], requests=srv.n_req, **srv.probes)
     out["faults"] = {"network_latency_" + scn.get("latency", "fast"): 1}
     if srv.probes.get("suspensions_decided"):
@@ -384,6 +384,7 @@ def run_rest(scn):
     elif stats_canon(st1) != stats_canon(st2):
         out["violation"] = Violation("C19.not_transparent.stats", {"rest": stats_canon(st1), "in_process": stats_canon(st2)}).to_json()
     out["ticks"] = o1["ticks"] * 2
+    out["sim_s"] = o1["sim_s"] * 2
     return out
 
 
@@ -408,3 +409,36 @@ def gen_scn(r, tier):
     scn["policy_knobs"] = {"p_asg": r.choice([0.3, 0.7, 1.0]), "p_sus": r.choice([0, 0.3, 1.0]),
                            "per_pool": r.choice([1, 2, 4]), "retry": r.random() < 0.6}
     return scn
+
+
+# ---------------------------------------------------------------------------
+# auxiliary static check: go/eudoxia/types.go against the keys the Python side emits / accepts
+# ---------------------------------------------------------------------------
+def go_types_crossread():
+    import os
+    import re
+    from .common import REPO
+    path = os.path.join(REPO, "go", "eudoxia", "types.go")
+    if not os.path.exists(path):
+        return {"skipped": "go/eudoxia/types.go not found"}, []
+    src = open(path).read()
+    structs = {}
+    for m in re.finditer(r"type\s+(\w+)\s+struct\s*\{(.*?)\n\}", src, re.S):
+        structs[m.group(1)] = set(re.findall(r'json:"([^",]+)', m.group(2)))
+    want = {"ScheduleRequest": REQ_KEYS, "Pipeline": PIPE_KEYS, "Operator": OP_KEYS, "Pool": POOL_KEYS,
+            "Container": CONT_KEYS, "ExecutionResult": RES_KEYS,
+            "Assignment": {"operator_ids", "cpu", "ram_gb", "pool_id", "priority", "is_resume", "force_run"},
+            "Suspension": {"container_id", "pool_id"}, "ScheduleResponse": {"suspensions", "assignments"}}
+    viol = []
+    checked = 0
+    for name, keys in want.items():
+        got = structs.get(name)
+        if got is None:
+            continue
+        checked += 1
+        if got != set(keys):
+            viol.append({"idx": checked, "family": "gotypes", "scenario": None,
+                         "violation": Violation("C19.go_types_mismatch", {"struct": name, "go_only": sorted(got - set(keys)),
+                                                                          "python_only": sorted(set(keys) - got)}).to_json()})
+    return {"structs_compared": checked, "mismatches": len(viol),
+            "note": "static cross-read of json tags; the Go reference scheduler itself is not executed (no toolchain)"}, viol
